@@ -219,14 +219,15 @@ QuietClause(b, a, ncbs) ==
     ELSE "ok"
 
 \* ---- (E) SyncLogger
-\* samples = what data_received_cb delivered for the logger's configurations (in order), yields =
-\* what the iteration returned; disc/stopped: disconnect seen / iteration ended; early = it ended
-\* before any disconnect; drained = the consumer was waiting on an empty queue at the disconnect
-\* (or at the end of an execution without disconnect)
-SyncClause(samples, yields, disc, stopped, early, drained) ==
-    IF ~IsPrefix(yields, samples) THEN "YieldsOnceInOrder"
+\* received = samples handed to the logger's data callback (in order), decoded = samples data_received_cb
+\* delivered for the logger's configurations between connect() and the disconnect, yields = what the
+\* iteration returned; disc/stopped: disconnect seen / iteration ended; early = it ended before any
+\* disconnect; drained = the consumer was waiting on an empty queue at the disconnect (or at the end of
+\* an execution without disconnect)
+SyncClause(received, decoded, yields, disc, stopped, early, drained) ==
+    IF ~IsPrefix(yields, received) THEN "YieldsOnceInOrder"
     ELSE IF early THEN "EndedBeforeDisconnect"
     ELSE IF disc /\ ~stopped THEN "NoEndAtDisconnect"
-    ELSE IF drained /\ Len(yields) # Len(samples) THEN "SampleLost"
+    ELSE IF drained /\ Len(yields) # Len(decoded) THEN "SampleLost"
     ELSE "ok"
 =============================================================================
